@@ -272,13 +272,9 @@ Explained(c, fl) ==
   LET f == fl[1] IN
   \* F-03c: a past operator over a future operand; the value is exactly the one the pastification
   \* scheme as designed (Past!Pastify) produces
-  (IF f.clause = "update.ret" /\ f.pof /\ f.got = f.alt THEN {"F-03c"} ELSE {}) \cup
-  \* F-20a: explanations are stored per printed name and overwritten: a variable / sub-formula that occurs twice
-  (IF f.clause = "explain.not_sufficient" /\ \E i \in 1..Len(ms) : ms[i].phi.op # "null" /\ HasDupName(ms[i].phi)
-   THEN {"F-20a"} ELSE {}) \cup
-  \* F-20d: rise / fall hand the interval to the operand unchanged (the previous sample is not reported)
-  (IF f.clause = "explain.not_sufficient" /\ \E i \in 1..Len(ms) : ms[i].phi.op # "null" /\ HasOp(ms[i].phi, {"rise", "fall"})
-   THEN {"F-20d"} ELSE {})
+  (IF f.clause = "update.ret" /\ f.pof /\ f.got = f.alt THEN {"F-03c"} ELSE {})
+  \* (F-20a, explanations overwritten per printed name, and F-20d, rise / fall without the previous sample, were
+  \*  repaired in the library: explain.not_sufficient has no excuse any more)
 
 Verdict(c, fl) ==
   [tid |-> c.tid, ok |-> fl = Ok,
